@@ -17,5 +17,8 @@ func controlsC04() []Control {
 		{Name: "heads-up flag read after the seats moved", Expect: "R2", Mutate: replaceIn("(*seatManager).rotatePositions", "if previousRoundIsHU {", "_ = previousRoundIsHU\n\t\t\tif sm.IsHU() {", 0)},
 		{Name: "active count includes waiting players", Expect: "R6", Mutate: replaceIn("(*seatManager).getActivePlayerCount", "seatPlayer != nil && seatPlayer.Active()", "seatPlayer != nil && seatPlayer.IsIn", 0)},
 		{Name: "wrap-around test compares the unreduced counter", Expect: "R1", Mutate: replaceIn("(*seatManager).isBetweenDealerBB", "if i%sm.MaxSeat == targetSeatID {", "if i == targetSeatID {", 0)},
+		{Name: "initial dealer searched from the big blind", Expect: "R7", Mutate: replaceIn("(*seatManager).initPositions", "sm.previousOccupiedSeatID(sm.SBSeatID, true)", "sm.previousOccupiedSeatID(sm.BBSeatID, true)", 0)},
+		{Name: "initial small blind may be an inactive seat", Expect: "R7", Mutate: replaceIn("(*seatManager).initPositions", "sm.previousOccupiedSeatID(sm.BBSeatID, true)", "sm.previousOccupiedSeatID(sm.BBSeatID, false)", 0)},
+		{Name: "heads-up initial dealer may be the big blind seat", Expect: "R7", Mutate: replaceIn("(*seatManager).initPositions", "seatPlayer.Active() && seatID != firstSeatID", "seatPlayer.Active()", 0)},
 	}
 }
